@@ -83,9 +83,11 @@ CONSTANTS Families,      \* subset of {"hist", "merge", "sds", "sym", "file"}
 \*   LineNumsRangeCached the same, for the range of `filter -line-nums` only (a finding)    OwnSymbols
 \*   PreprocessorArgsAccumulate  the preprocessor of a suite keeps the arguments of earlier cases  ThreeWaysAgree
 \*   ValidatedValueCached  a shared instruction object remembers that its value was well-formed   OwnSymbols
+\*   ReferencesValidatedOnce  the references of a shared instruction object are checked for the first case only   OwnSymbols
 DeviationNames == {"EnvNotCopied", "ConfShared", "CwdNotRestored", "SuiteContentsAfter", "Inherited",
                    "OptionIgnored", "BesideIgnored", "SandboxValueCached", "SymbolValueCached",
-                   "LineNumsRangeCached", "PreprocessorArgsAccumulate", "ValidatedValueCached"}
+                   "LineNumsRangeCached", "PreprocessorArgsAccumulate", "ValidatedValueCached",
+                   "ReferencesValidatedOnce"}
 ASSUME Deviations \subseteq DeviationNames
 Dev(d) == d \in Deviations
 
@@ -256,9 +258,13 @@ AllSymKinds == {SymOrder[j] : j \in DOMAIN SymOrder}
 \* "vbad": values of which the INTEGER and the REGEX are ill-formed (the others are values like any other): a case
 \* that gives them to an instruction of the suite that needs an INTEGER / a REGEX ends in VALIDATION_ERROR before
 \* anything is executed - whatever the cases before it gave to the same instruction
-ASSUME SymKinds \subseteq AllSymKinds /\ SymVals \subseteq {"v1", "v2", "v3", "vbad"}
+\* "vnone": the case does not define the symbols at all;  "vtype": it defines every one of them with a type that the
+\* references of the suite do not accept.  Both end in VALIDATION_ERROR before anything is executed - whatever
+\* the cases before them defined for the same instructions
+ASSUME SymKinds \subseteq AllSymKinds /\ SymVals \subseteq {"v1", "v2", "v3", "vbad", "vnone", "vtype"}
 InvalidFor == {"exitCode", "numLines", "lineNum", "lineNums", "timeoutInt", "matchesRx"}
-OwnFile(v) == CASE v = "v1" -> "own1.txt" [] v = "v2" -> "own2.txt" [] v = "v3" -> "own3.txt" [] OTHER -> "own4.txt"
+OwnFile(v) == CASE v = "v1" -> "own1.txt" [] v = "v2" -> "own2.txt" [] v = "v3" -> "own3.txt" [] v = "vtype" -> "own6.txt"
+                [] OTHER -> "own4.txt"
 SymDoc(ks) ==
     LET pick(S) == SelectSeq(SymOrder, LAMBDA k : k \in S \cap ks)
         logs(S) == [j \in DOMAIN pick(S) |-> I("symLog", pick(S)[j], "", NoVal)]
@@ -273,7 +279,8 @@ SymDoc(ks) ==
                     [] OTHER               -> <<>>])
 \* a case of the sym family: observes, defines its symbols, observes; its action to check behaves as its value says
 SymCaseDoc(v) == [p \in PhaseNames |->
-                    CASE p = "setup" -> <<Probe("p0"), I("defOwn", "", "", <<v>>), Probe("p1")>>
+                    CASE p = "setup" -> IF v = "vnone" THEN <<Probe("p0"), Probe("p1")>>
+                                        ELSE <<Probe("p0"), I("defOwn", "", "", <<v>>), Probe("p1")>>
                       [] p = "act"   -> <<I("actown", "", "", <<v>>)>>
                       [] OTHER       -> <<>>]
 \* each kind alone and all together (the timeout kind only alone: after "timeout = 0" no further OS process);
@@ -412,6 +419,9 @@ Defined(syms) == {n \in SymNames : syms[n] # NoVal}
 OwnVal(q) == IF \E j \in DOMAIN q : q[j].op = "defOwn" THEN q[CHOOSE j \in DOMAIN q : q[j].op = "defOwn"].c ELSE NoVal
 NeedsWellFormed(q) == \E j \in DOMAIN q : q[j].op \in {"symLog", "symAssert", "symTimeout"} /\ q[j].a \in InvalidFor
 ValuesOK(q) == ~(OwnVal(q) = <<"vbad">> /\ NeedsWellFormed(q))
+\* the type of a symbol is part of what a reference to it requires
+TypesOK(q) == ~(OwnVal(q) = <<"vtype">> /\ \E j \in DOMAIN q : q[j].op \in {"symLog", "symAssert", "symTimeout"})
+RefsOK(q, defined) == SymsOK(q, defined) /\ TypesOK(q)
 Ident(status, out) == CASE out = "hard" -> "HARD_ERROR"
                         [] out = "fail" -> (IF status = "FAIL" THEN "XFAIL" ELSE "FAIL")
                         [] OTHER        -> (IF status = "FAIL" THEN "XPASS" ELSE "PASS")
@@ -436,7 +446,7 @@ Alone(doc, c, pp) ==
     IN IF ~SyntaxOK(doc) THEN [id |-> "SYNTAX_ERROR", log |-> <<>>]
        ELSE IF cf.status = "SKIP" THEN [id |-> "SKIPPED", log |-> <<>>]
        ELSE IF ~ActSyntaxOK(doc, cf.actor) THEN [id |-> "SYNTAX_ERROR", log |-> <<>>]
-       ELSE IF ~SymsOK(Instrs(doc), Defined(P0.syms)) THEN [id |-> "VALIDATION_ERROR", log |-> <<>>]
+       ELSE IF ~RefsOK(Instrs(doc), Defined(P0.syms)) THEN [id |-> "VALIDATION_ERROR", log |-> <<>>]
        ELSE IF ~ValuesOK(Instrs(doc)) THEN [id |-> "VALIDATION_ERROR", log |-> <<>>]
        ELSE LET t0 == [L |-> Fresh(P0, c), out |-> "ok", log |-> <<>>]
                 t1 == RunInstrs(doc["setup"], t0, c, "setup", pp)
@@ -539,7 +549,9 @@ ParseAct ==
 \* the predefined symbols the validation starts from are those of the process
 ValidateSymbols ==
     /\ pc = "validate"
-    /\ IF /\ SymsOK(Instrs(cur.doc), Defined(P.syms))
+    /\ IF /\ \/ RefsOK(Instrs(cur.doc), Defined(P.syms))
+             \* deviation: the instructions of the suite report their references once - to the first case
+             \/ Dev("ReferencesValidatedOnce") /\ idents # <<>> /\ SymsOK(cur.doc["setup"], Defined(P.syms))
           /\ \/ ValuesOK(Instrs(cur.doc))
              \* deviation: the shared instruction object remembers that its value was well-formed in an earlier case
              \/ Dev("ValidatedValueCached") /\ \E j \in DOMAIN idents : idents[j][2] # "VALIDATION_ERROR"
